@@ -149,6 +149,9 @@ type c10Scenario struct {
 	SeedRecs []c10SeedRec `json:"seed_recs,omitempty"`
 	Ops      []c10Op      `json:"ops"`
 	Settle   bool         `json:"settle,omitempty"`
+	// GCSettle: after the history the pod controller stays down (no ReconcilePod); only collector passes
+	// and ReconcilePodENI run, then the end state of records whose pod is gone is judged
+	GCSettle bool `json:"gc_settle,omitempty"`
 	// TZ: zone of the controller process (time.Local) in hours east of UTC; 0 = UTC
 	TZ int `json:"tz,omitempty"`
 	// cloud outage: the fault bits CF apply to every reconcile/collector step with
@@ -1303,6 +1306,60 @@ func (w *c10World) settle(rounds int) {
 		for i := range w.pods {
 			w.runOp(1000+r, c10Op{K: "rpod", P: i})
 			w.runOp(1000+r, c10Op{K: "reni", P: i})
+		}
+	}
+}
+
+// gcSettle: the backstop path. The pod controller never sees the deletions (it is down); faults
+// off, node objects back, rounds of gcCRPodENIs followed by ReconcilePodENI for every name.
+func (w *c10World) gcSettle(rounds int) {
+	w.c.Trace("gc-settle: faults off, node objects back, pod controller down, %d rounds of gcCR + pod-eni per name", rounds)
+	for n := 0; n < c10Nodes; n++ {
+		cur := &corev1.Node{}
+		if err := w.base.Get(context.Background(), k8stypes.NamespacedName{Name: c10NodeName(n)}, cur); err != nil {
+			w.nodeOp("nodeback", n)
+		}
+	}
+	w.cloud.mu.Lock()
+	w.cloud.nthFail = map[string]bool{}
+	w.cloud.mu.Unlock()
+	// what must go: records without a fixed IP whose pod is gone, in a phase such a record can be in
+	// (Initial, Bind, Deleting; the other phases are only ever written for fixed-IP records)
+	type due struct {
+		name string
+		snap c10Snap
+	}
+	var dues []due
+	for i := range w.pods {
+		name := c10PodName(i)
+		rec := w.read(name)
+		if !rec.Present || rec.HasFixed || w.getPod(i) != nil {
+			continue
+		}
+		switch rec.Phase {
+		case "", "Bind", "Deleting":
+			dues = append(dues, due{name, rec})
+			w.nt = true
+			w.c.Labelf("gc-settle:elastic-orphan-in-%s", c10PhaseName(rec.Phase))
+		}
+	}
+	for r := 0; r < rounds; r++ {
+		w.runOp(2000+r, c10Op{K: "gccr"})
+		for i := range w.pods {
+			w.runOp(2000+r, c10Op{K: "reni", P: i})
+		}
+	}
+	// C10 (3): the pod of a record without fixed IP is deleted => the record disappears and its
+	// interfaces are detached and deleted (here without any help from the pod controller)
+	for _, d := range dues {
+		if rec := w.read(d.name); rec.Present {
+			w.c.Fatalf("C10(3): pod %s (no fixed IP) is deleted and the pod controller never saw it; after %d rounds of gcCRPodENIs + ReconcilePodENI its record still exists: phase %q (was %q) deleting=%v allocs=%s",
+				d.name, rounds, rec.Phase, d.snap.Phase, rec.Deleting, rec.ident())
+		}
+		for _, a := range d.snap.Allocs {
+			if e, ok := w.cloud.get(a.ENI); ok {
+				w.c.Fatalf("C10(3): pod %s (no fixed IP) is deleted, its record is gone but interface %s still exists (status=%q instance=%q)", d.name, a.ENI, e.Status, e.Instance)
+			}
 		}
 	}
 }
